@@ -18,4 +18,7 @@ CASES = [
     dict(expect="fire", desc="seed C13-r2/2: with_latest_from subscribes the primary before the others", names="G1-gating", edits=[dict(file="reactivex/observable/withlatestfrom.py",
          old="            children_subscription = [\n                subscribechild(i, child) for i, child in enumerate(children)\n            ]\n            disp = parent.subscribe(\n                on_next, on_error, on_completed, scheduler=scheduler\n            )\n            parent_subscription.disposable = disp\n",
          new="            parent_subscription.disposable = parent.subscribe(\n                on_next, on_error, on_completed, scheduler=scheduler\n            )\n            children_subscription = [\n                subscribechild(i, child) for i, child in enumerate(children)\n            ]\n")]),
+    dict(expect="silent", desc="with_latest_from: children subscribed in a loop before the primary", edits=[dict(file="reactivex/observable/withlatestfrom.py",
+         old="            children_subscription = [\n                subscribechild(i, child) for i, child in enumerate(children)\n            ]\n",
+         new="            children_subscription = []\n            for i, child in enumerate(children):\n                children_subscription.append(subscribechild(i, child))\n")]),
 ]
